@@ -2,7 +2,7 @@
 
 Findings on the unchanged tree (FAMILIES below are the fallback keys, matched on the rejected expression):
   new  t where b < "" or b <= 3 selects nothing (an empty index span makes the whole or a conflict)
-       fix: commit in /tmp/wt-values                         key qexpr-or-with-empty-alternative-selects-nothing
+       (independently repaired in /repo by c4fc97c)          key qexpr-or-with-empty-alternative-selects-nothing
   new  t extend z = 2 / d fails with ASSERT FAILED: should not reach here (consequence of the folder
        putting the divide first, fixed by the C30 folder fix)                key qexpr-const-div-field-assert
   new  is / isnt / in on stored encodings of equal objects whose named members were inserted in different
